@@ -8,6 +8,8 @@ Sensitivity (quick tier, scratch copies):
   pre-fix snapshot 59274db: add,add,del -> KeyError (F1)                       -> caught (present_name_not_deletable)
   pre-fix snapshot: continuation line with an empty side (F17)                 -> caught (continuation_edge_whitespace)
   seeded: __delitem__ clearing the cache under the caller's spelling           -> caught (stale joined value after delete)
+  seeded (round 10): ASCII case tables built with an exclusive range end (no 'z'/'Z') -> missed until names with z/Z in
+     both cases were in the pool (membership / get_list under the other spelling)
   seeded (round 8): add() recording the continuation target before validating, so a REFUSED add moves it
      -> missed until refused adds ("add_bad": padded values, control characters, bad names) were generated (get_list after cont)
   seeded (round 6): __setitem__ returning early when the cached combined value equals the new value
@@ -39,7 +41,9 @@ READY = True
 
 NAMES = ["x-a", "X-A", "X-a", "x-A", "Set-Cookie", "set-cookie", "SET-COOKIE", "b",
          # token characters other than letters and '-' (case mapping must treat them consistently everywhere)
-         "p3p", "P3P", "x_trace_id", "X_Trace_Id", "x-amz-s3b", "X-Amz-S3B", "a.b!c", "A.B!C"]
+         "p3p", "P3P", "x_trace_id", "X_Trace_Id", "x-amz-s3b", "X-Amz-S3B", "a.b!c", "A.B!C",
+         # first and last letters of the alphabet in both cases at word starts and inside words (edges of case tables)
+         "z-zz", "Z-ZZ", "Az-Za", "aZ-zA"]
 VALUE_ALPHABET = "ab,;=\"\\1 \t\x80\xff~!:"
 
 
